@@ -66,6 +66,7 @@ class Recorder:
         self.canaries = canaries
         self.glue = parse_glue()
         self._orig = {}
+        self._slots = {}
 
     def install(self):
         import phonopy._phonopy as phonoc
@@ -115,7 +116,9 @@ class Recorder:
         def w(*args):
             self.counts[name] += 1
             self._check_glue(name, args)
-            keep = self.counts[name] <= self.keep
+            # the first half of the quota keeps the earliest calls, the second half is a ring of the latest calls, so that both the
+            # set-up phase and the last queries of a scenario are represented
+            keep = True
             before = [np.array(a, copy=True) if isinstance(a, np.ndarray) else a for a in args] if keep or self.canaries else None
             if self.canaries and all((not isinstance(a, np.ndarray)) or a.flags.c_contiguous for a in args):
                 # run on padded copies with canaries on both sides, then copy results back
@@ -148,7 +151,16 @@ class Recorder:
                 r = fn(*args)
             if keep:
                 after = [np.array(a, copy=True) if isinstance(a, np.ndarray) else None for a in args]
-                self.records.append({"name": name, "args": before, "after": after, "ret": r})
+                rec = {"name": name, "args": before, "after": after, "ret": r}
+                slots = self._slots.setdefault(name, [])
+                if len(slots) < self.keep:
+                    slots.append(len(self.records))
+                    self.records.append(rec)
+                else:
+                    head = self.keep // 2
+                    ring = self.keep - head
+                    k = head + (self.counts[name] - self.keep - 1) % ring
+                    self.records[slots[k]] = rec
             return r
 
         return w
